@@ -40,50 +40,39 @@ LIM_PROPS = "PROPERTIES Retention DecisionOK PrefixExempt RefusalInert Independe
 CONN_INV = "INVARIANTS TypeOK BoundOK ForgetSound ExpiryCovers CTypeOK CountsExact CapsHold EntCovers"
 CONN_PROPS = "PROPERTIES ConnDecisionOK RateFirst DropAtZero BogusInert"
 
-# instance -> vacuity guards (action properties that must be VIOLATED in that instance)
+# vacuity is counted on the printed graphs (every VIEW-distinct transition is printed): kinds that must occur per instance
 LIM_INSTANCES = {
-    "sub4": ["ReachRefSub", "ReachRefSub2", "ReachRefGlob", "ReachForget"],
-    "np": ["ReachRefNP", "ReachRefGlob"],
-    "v6": ["ReachRefSub2", "ReachForget"],
-    "mapped": ["ReachRefSub", "ReachRefGlob"],
-    "b0": ["ReachRefNP", "ReachRefSub"],
-    "vsa": ["ReachRefNP", "ReachRefSub2", "ReachForget"],
+    "sub4": ["Allow:sub1", "Allow:sub2", "Allow:glob", "forgot", "Tick"],
+    "np": ["Allow:np2", "Allow:np3", "Allow:glob"],
+    "v6": ["Allow:sub1", "Allow:sub2", "forgot"],
+    "mapped": ["Allow:sub1", "Allow:glob"],
+    "b0": ["Allow:np1", "Allow:sub1"],
+    "vsa": ["Allow:np1", "Allow:sub1", "Allow:sub2", "forgot"],
+    "vsanp": ["Allow:np1", "Allow:np2", "Allow:np3", "Allow:sub1"],
 }
-CONN_INSTANCES = {
-    "c4": (3, ["ReachConnRef", "ReachConnRef2", "ReachZeroEnt"]),
-    "c6": (3, ["ReachConnRef", "ReachConnRef2"]),
-    "joint": (2, ["ReachConnRef", "ReachRateRef"]),
-}
+CONN_INSTANCES = {"c4": 3, "c6": 3, "joint": 2, "jointM": 2, "jointL": 3}  # MaxLive; jointM: thorough; jointL: thorough, exhaustive only
+# quick tier: share of a big printed graph that is replayed (seeded covering sample); thorough replays every transition
+QUICK_SAMPLE = {"joint": 25000, "c6": 15000}
+CONN_KINDS = {"c4": ["Open:conn", "Open:conn@2", "zero-entry", "Done", "Bogus"], "c6": ["Open:conn", "Open:conn@2"],
+              "joint": ["Open:conn", "Open:rate", "Done", "Tick"], "jointM": ["Open:conn", "Open:rate", "Done", "Tick"]}
 CONC_INSTANCES = {"ksub": "{1, 2, 3}", "knp": "{1, 2, 3}"}
-
-
-def _guard(ctx, module, template, consts, inv_line, prop_line, g, tag):
-    cfg = tlc.subst_cfg(template, consts, replace=[(inv_line, ""), (prop_line, "PROPERTIES " + g)])
-    r = tlc.run(ctx, module, "gen_%s_%s.cfg" % (tag, g), cfg_text=cfg, workers=1, timeout=600, name="g%s%s" % (tag, g))
-    if r.ok or r.violated != g:
-        raise MachineryError("vacuity guard %s is not reachable in instance %s (%s)" % (g, tag, r.violated))
 
 
 def _lim_one(args):
     ctx, inst, beh_dir = args
     consts = {"Inst": '"%s"' % inst}
+    limit = QUICK_SAMPLE.get(inst) if ctx.quick else None
     t0 = time.time()
-    r1 = tlc.run(ctx, "C03rate_MC", "gen_%s_mc.cfg" % inst, cfg_text=tlc.subst_cfg("C03rate_MC.cfg", consts), workers=2,
-                 timeout=900, name="mc" + inst)
+    # one run: every invariant / action property AND every transition printed once (VIEW-distinct) for the replay
+    cfg = tlc.subst_cfg("C03rate_MC.cfg", consts, replace=[("INIT Init", "INIT MCInit"), ("VIEW View", "VIEW View\nACTION_CONSTRAINT EmitEdge")])
+    r1 = r2 = tlc.run(ctx, "C03rate_MC", "gen_%s_mc.cfg" % inst, cfg_text=cfg, workers=1, timeout=900, name="mc" + inst)
     if not r1.ok:
         raise MachineryError("design-level failure in C03rate_Limiter %s: %s violated\n%s" % (inst, r1.violated, r1.out[-1500:]))
-    for g in LIM_INSTANCES[inst]:
-        _guard(ctx, "C03rate_MC", "C03rate_MC.cfg", consts, LIM_INV, LIM_PROPS, g, inst)
-    cfg2 = tlc.subst_cfg("C03rate_MC.cfg", consts, replace=[("INIT Init", "INIT MCInit"), ("VIEW View", "VIEW View\nACTION_CONSTRAINT EmitEdge"),
-                                                            (LIM_INV, "INVARIANTS TypeOK"), (LIM_PROPS, "")])
-    r2 = tlc.run(ctx, "C03rate_MC", "gen_%s_edges.cfg" % inst, cfg_text=cfg2, workers=1, timeout=900, name="ed" + inst)
-    if not r2.ok:
-        raise MachineryError("edge run failed for %s: %s" % (inst, r2.violated))
     conf = [o for t, o in r2.prints if t == "VFCONF"]
     g = graph.Graph(r2.inits, r2.edges)
     if g.n_edges() == 0 or not conf:
         raise MachineryError("no edges / configuration printed for " + inst)
-    walks = g.covering_walks(seed=ctx.seed, max_len=60)
+    walks = g.covering_walks(seed=ctx.seed, max_len=150, limit_edges=limit)
     graph.write_behaviours(os.path.join(beh_dir, "lim_%s.jsonl" % inst), walks, {"conf": conf[0], "edges": g.n_edges(), "states": g.n_states()})
     kinds = {}
     for _s, op, _t in g.edges:
@@ -97,39 +86,45 @@ def _lim_one(args):
 
 def _conn_one(args):
     ctx, inst, beh_dir = args
-    maxlive, guards = CONN_INSTANCES[inst]
+    maxlive = CONN_INSTANCES[inst]
     consts = {"Inst": '"%s"' % inst, "MaxLive": maxlive}
+    limit = QUICK_SAMPLE.get(inst) if ctx.quick else None
     t0 = time.time()
-    r1 = tlc.run(ctx, "C03rate_ConnMC", "gen_%s_mc.cfg" % inst, cfg_text=tlc.subst_cfg("C03rate_ConnMC.cfg", consts), workers=2,
-                 timeout=900, name="mc" + inst)
+    if inst == "jointL":
+        r1 = tlc.run(ctx, "C03rate_ConnMC", "gen_%s_mc.cfg" % inst, cfg_text=tlc.subst_cfg("C03rate_ConnMC.cfg", consts), workers=2,
+                     timeout=1500, name="mc" + inst)
+        if not r1.ok:
+            raise MachineryError("design-level failure in C03rate_Conn %s: %s violated\n%s" % (inst, r1.violated, r1.out[-1500:]))
+        return {"inst": inst, "states": r1.distinct, "generated": r1.generated, "edges": 0, "walks": 0, "steps": 0, "kinds": {},
+                "wall": round(time.time() - t0, 1), "cmd": r1.cmd}
+    cfg = tlc.subst_cfg("C03rate_ConnMC.cfg", consts, replace=[("INIT CInit", "INIT MCInit"), ("VIEW CView", "VIEW CView\nACTION_CONSTRAINT EmitEdge")])
+    r1 = r2 = tlc.run(ctx, "C03rate_ConnMC", "gen_%s_mc.cfg" % inst, cfg_text=cfg, workers=1, timeout=900, name="mc" + inst)
     if not r1.ok:
         raise MachineryError("design-level failure in C03rate_Conn %s: %s violated\n%s" % (inst, r1.violated, r1.out[-1500:]))
-    for g in guards:
-        _guard(ctx, "C03rate_ConnMC", "C03rate_ConnMC.cfg", consts, CONN_INV, CONN_PROPS, g, inst)
-    cfg2 = tlc.subst_cfg("C03rate_ConnMC.cfg", consts, replace=[("INIT CInit", "INIT MCInit"), ("VIEW CView", "VIEW CView\nACTION_CONSTRAINT EmitEdge"),
-                                                                (CONN_INV, "INVARIANTS CTypeOK"), (CONN_PROPS, "")])
-    r2 = tlc.run(ctx, "C03rate_ConnMC", "gen_%s_edges.cfg" % inst, cfg_text=cfg2, workers=1, timeout=900, name="ed" + inst)
-    if not r2.ok:
-        raise MachineryError("edge run failed for %s: %s" % (inst, r2.violated))
     conf = [o for t, o in r2.prints if t == "VFCONF"]
     g = graph.Graph(r2.inits, r2.edges)
     if g.n_edges() == 0 or not conf:
         raise MachineryError("no edges / configuration printed for " + inst)
-    walks = g.covering_walks(seed=ctx.seed, max_len=60)
+    walks = g.covering_walks(seed=ctx.seed, max_len=150, limit_edges=limit)
     graph.write_behaviours(os.path.join(beh_dir, "conn_%s.jsonl" % inst), walks, {"conf": conf[0], "edges": g.n_edges(), "states": g.n_states()})
     kinds = {}
     for _s, op, _t in g.edges:
         k = op["name"] + (":" + op["res"] if op["name"] == "Open" else "")
         kinds[k] = kinds.get(k, 0) + 1
+        if op["name"] == "Open" and op["res"] == "conn" and op.get("at") == 2:
+            kinds["Open:conn@2"] = kinds.get("Open:conn@2", 0) + 1
+        tt = g.states[_t]
+        if isinstance(tt["subc"], dict) and any(n == 0 for n in tt["subc"].values()):
+            kinds["zero-entry"] = kinds.get("zero-entry", 0) + 1
     return {"inst": inst, "states": r1.distinct, "generated": r1.generated, "edges": g.n_edges(), "walks": len(walks),
             "steps": sum(len(w["steps"]) for w in walks), "kinds": kinds, "wall": round(time.time() - t0, 1), "cmd": r1.cmd}
 
 
 def _conc_one(args):
     ctx, inst = args
-    consts = {"Inst": '"%s"' % inst, "Callers": CONC_INSTANCES[inst]}
+    consts = {"Inst": '"%s"' % inst, "Callers": "{1, 2}" if (ctx.quick and inst == "ksub") else CONC_INSTANCES[inst]}
     t0 = time.time()
-    r1 = tlc.run(ctx, "C03rate_ConcMC", "gen_%s_mc.cfg" % inst, cfg_text=tlc.subst_cfg("C03rate_ConcMC.cfg", consts), workers=2,
+    r1 = tlc.run(ctx, "C03rate_ConcMC", "gen_%s_mc.cfg" % inst, cfg_text=tlc.subst_cfg("C03rate_ConcMC.cfg", consts), workers=1,
                  timeout=900, name="mc" + inst)
     if not r1.ok:
         raise MachineryError("design-level failure in C03rate_Conc %s: %s violated\n%s" % (inst, r1.violated, r1.out[-1500:]))
@@ -155,19 +150,24 @@ def run_part(ctx, thorough):
 
     beh = ctx.sub("beh")
     tlc.stage(ctx)
-    jobs = [(_lim_one, (ctx, i, beh)) for i in LIM_INSTANCES] + [(_conn_one, (ctx, i, beh)) for i in CONN_INSTANCES] + \
+    conn_insts = [i for i in CONN_INSTANCES if thorough or i not in ("jointL", "jointM")]
+    big_first = sorted(list(LIM_INSTANCES), key=lambda i: i not in ("vsa", "sub4"))
+    jobs = [(_conn_one, (ctx, i, beh)) for i in sorted(conn_insts, key=lambda i: not i.startswith("joint"))] + [(_lim_one, (ctx, i, beh)) for i in big_first] + \
            [(_conc_one, (ctx, i)) for i in CONC_INSTANCES]
-    with cf.ProcessPoolExecutor(max_workers=2) as ex:      # 2 x (<= 2 TLC workers)
+    with cf.ProcessPoolExecutor(max_workers=4) as ex:      # 4 x 1 TLC worker
         out = list(ex.map(_job, jobs))
     lim = [o for o in out if o["inst"] in LIM_INSTANCES]
+    for o in lim + [x for x in out if x["inst"] in CONN_INSTANCES]:
+        o["replayed_share"] = "sample" if (ctx.quick and o["inst"] in QUICK_SAMPLE) else "all"
     conn = [o for o in out if o["inst"] in CONN_INSTANCES]
     conc = [o for o in out if o["inst"] in CONC_INSTANCES]
     mark("tlc")
     # vacuity on the printed graphs
-    need = {"sub4": ["Allow:sub1", "Allow:sub2", "Allow:glob", "forgot", "Tick"], "np": ["Allow:np2", "Allow:np3", "Allow:glob"],
-            "v6": ["Allow:sub1", "Allow:sub2", "forgot"], "vsa": ["Allow:np1", "Allow:np2", "Allow:np3", "Allow:sub1", "Allow:sub2", "forgot"],
-            "c4": ["Open:conn", "Done", "Bogus"], "c6": ["Open:conn"], "joint": ["Open:conn", "Open:rate", "Done", "Tick"]}
+    need = dict(LIM_INSTANCES)
+    need.update(CONN_KINDS)
     for o in lim + conn:
+        if o["inst"] == "jointL":
+            continue
         for k in need.get(o["inst"], []):
             if not o["kinds"].get(k):
                 raise MachineryError("printed graph of %s has no %s transition (%s)" % (o["inst"], k, o["kinds"]))
@@ -191,9 +191,35 @@ def run_part(ctx, thorough):
     zero = goenv.run_harness(ctx, PKG_RATE, "^TestVerifC03rateZero$", timeout=900)
     div += classify_mismatches(ctx, zero, "zero")
     mark("zero")
+    # (2) resource manager: connLimiter in-package and through OpenConnection/Done, VerifySourceAddress, default configuration
+    connh = goenv.run_harness(ctx, PKG_RCMGR, "^TestVerifC03rateConn$", inputs=beh, timeout=1500)
+    div += classify_mismatches(ctx, connh, "conn")
+    want = sum(o["steps"] for o in conn)
+    if not connh["mismatches"] and connh["steps"] != want:
+        raise MachineryError("rcmgr replay executed %d steps for %d in the walks" % (connh["steps"], want))
+    cx = connh.get("extra") or {}
+    if not connh["mismatches"] and not (cx.get("walks_direct") and cx.get("walks_manager")):
+        raise MachineryError("vacuous conn replay: %s" % cx)
+    mark("conn")
+    vsa = goenv.run_harness(ctx, PKG_RCMGR, "^TestVerifC03rateVSA$", inputs=beh, timeout=1500)
+    div += classify_mismatches(ctx, vsa, "vsa")
+    want = sum(o["steps"] for o in lim if o["inst"].startswith("vsa"))
+    if not vsa["mismatches"] and vsa["steps"] != want:
+        raise MachineryError("VerifySourceAddress replay executed %d steps for %d in the walks" % (vsa["steps"], want))
+    dflt = goenv.run_harness(ctx, PKG_RCMGR, "^TestVerifC03rateDefaults$", timeout=1500, env={"VERIF_C03RATE_DEFAULT_SEQS": 200 if thorough else 40})
+    div += classify_mismatches(ctx, dflt, "defaults")
+    if not dflt["mismatches"] and dflt["distinct"] < 20:
+        raise MachineryError("vacuous default-configuration run: %d distinct (address, result) cases" % dflt["distinct"])
+    mark("vsa+defaults")
     cov = {
-        "limiter_instances": {o["inst"]: {k: o[k] for k in ("states", "generated", "edges", "walks", "steps", "wall")} for o in lim},
-        "conn_instances": {o["inst"]: {k: o[k] for k in ("states", "generated", "edges", "walks", "steps", "wall")} for o in conn},
+        "conn_replay_steps_executed": connh["steps"], "conn_replay_walks": connh["replayed"], "conn_replay_distinct_cases": connh["distinct"],
+        "conn_walks_direct_connLimiter": cx.get("walks_direct"), "conn_walks_through_manager": cx.get("walks_manager"),
+        "conn_zero_entries_left_after_release": cx.get("zero_entries_left_after_release"),
+        "vsa_replay_steps_executed": vsa["steps"], "vsa_replay_walks": vsa["replayed"], "vsa_distinct_cases": vsa["distinct"],
+        "defaults_sequences": dflt["replayed"], "defaults_steps": dflt["steps"], "defaults_distinct_cases": dflt["distinct"],
+        "defaults_extra": dflt.get("extra"),
+        "limiter_instances": {o["inst"]: {k: o[k] for k in ("states", "generated", "edges", "walks", "steps", "wall", "replayed_share")} for o in lim},
+        "conn_instances": {o["inst"]: {k: o[k] for k in ("states", "generated", "edges", "walks", "steps", "wall", "replayed_share")} for o in conn},
         "concurrent_instances": {o["inst"]: {k: o[k] for k in ("states", "generated", "wall")} for o in conc},
         "transition_kinds": {o["inst"]: o["kinds"] for o in lim + conn},
         "replay_steps_executed": res["steps"], "replay_walks": res["replayed"], "replay_distinct_cases": res["distinct"],
@@ -205,7 +231,7 @@ def run_part(ctx, thorough):
     }
     states = sum(o["states"] for o in out)
     trans = sum(o["generated"] for o in out)
-    traces = res["replayed"] + conc_h["replayed"] + zero["replayed"]
+    traces = res["replayed"] + conc_h["replayed"] + zero["replayed"] + connh["replayed"] + vsa["replayed"] + dflt["replayed"]
     log("C03rate: %d states, %d transitions generated; %s; new violations %d; L2 %d" % (states, trans, marks, len(ctx.violations) - viol0, div))
     return {"states": states, "transitions": trans, "replayed": traces, "samples": (res.get("samples") or [])[:3], "coverage": cov,
             "cmd": "tlc C03rate_MC.tla / C03rate_ConnMC.tla / C03rate_ConcMC.tla (templates instantiated per instance)"}
